@@ -94,6 +94,25 @@ fn main() {
         }
         return;
     }
+    if args[1] == "grown" {
+        let i: usize = args[2].parse().unwrap();
+        let cap = args.get(3).and_then(|c| c.parse::<usize>().ok());
+        let doc = &docs::grown_buffer_docs()[i];
+        let (bytes, _) = refmodel::ref_encode(doc);
+        println!("{}", refmodel::hex(&bytes));
+        let obs = obs::parse_slice::<spec::V>(&bytes, &obs::Cfg::strict().with_cap(cap).with_allow(1));
+        println!("{}", obs.short());
+        return;
+    }
+    if args[1] == "parse" {
+        // debugging aid: verif parse <hex> [capacity] [allow] — strict parse of the bytes over V, printed
+        let bytes: Vec<u8> = (0..args[2].len() / 2).map(|i| u8::from_str_radix(&args[2][2 * i..2 * i + 2], 16).expect("hex")).collect();
+        let cap = args.get(3).and_then(|c| c.parse::<usize>().ok());
+        let allow = args.get(4).and_then(|c| c.parse::<u8>().ok()).unwrap_or(0);
+        let obs = obs::parse_slice::<spec::V>(&bytes, &obs::Cfg::strict().with_cap(cap).with_allow(allow));
+        println!("{}", obs.short());
+        return;
+    }
     if args[1] == "worker" {
         if args.len() < 5 {
             usage();
